@@ -17,6 +17,7 @@ PROP = dict(
         dict(module="MCClientBody", cfg="MCClientBody_mut_debuglategetbody.cfg", expect_violation="AuthHolds", timeout=300),
         dict(module="MCClientBody", cfg="MCClientBody_mut_rewindseek.cfg", expect_violation="BodyHolds", timeout=300),
         dict(module="MCClientBody", cfg="MCClientBody_mut_defaultupfront.cfg", expect_violation="AuthHolds", timeout=300),
+        dict(module="MCClientBody", cfg="MCClientBody_mut_rewindpayload.cfg", expect_violation="AuthHolds", timeout=300),
         # uploads overlapping in time: every interleaving of the writers' sniff / copy steps keeps each part's content;
         # with a sniffing buffer shared between writers TLC finds the corrupting interleaving
         dict(module="MCClientBodyOverlap", cfg="MCClientBodyOverlap.cfg", timeout=300),
@@ -37,7 +38,8 @@ PROP = dict(
     trace=dict(module="TraceClientBody", cfg="TraceClientBody.cfg"),
     rule="case = one payload (value per registered producer / io.Reader / io.ReadCloser / form fields / files / both) x media type x auth "
          "writer calling GetBody 0..3 times x CreateHttpRequest or Submit, or a batch of such requests overlapping in time (all built before "
-         "the first is sent, on one P and on all Ps, or 48 concurrent Submits); exhaustive part: the body-inspecting writer as operation AuthInfo, as Runtime.DefaultAuthentication, and both (the operation's is "
+         "the first is sent, on one P and on all Ps, or 48 concurrent Submits); exhaustive part: seekable reader payloads (strings.Reader, bytes.Reader, *os.File) handed over past a consumed preamble x GetBody "
+         "0/1/3 times x writer placement; the body-inspecting writer as operation AuthInfo, as Runtime.DefaultAuthentication, and both (the operation's is "
          "consulted, never both); value payloads checked against a reference encoding by the same producer instance, incl. a CSV producer "
          "with skipped lines; Runtime.Debug on x auth writers reading the body 0..2 times x streamed/buffered bodies; reader payloads failing "
          "once at offset 0/1/mid/last x GetBody 0..3 times (the call fails or C11 holds in full); seekable uploads (os.File, in-memory seeker) "
